@@ -5,7 +5,7 @@ from checks import classcommon as cc
 from sim.kernel import stream
 
 PROPERTY = "C06"
-BAD = [5, None, 1.5, True, ["list", "a"], "ab", "", "\\a", "\\\\", "a-z", "\\d"]
+BAD = [5, None, 1.5, True, ["list", "a"], "ab", "", "\\a", "\\\\", "a-z", "\\d", ["lit", "ab"], ["empty"], ["lit", "a.b"]]
 
 
 def generate(run_seed, tier):
